@@ -94,11 +94,11 @@ func c06Nestings(call *gen.Expr) []*gen.Expr {
 		gen.MultiList(call, gen.Field("an"), gen.Field("ao")),
 		gen.MultiHash(keyA("r"), []*gen.Expr{call}),
 		gen.MultiList(call, call),
-		gen.Chain(gen.Field("ao"), gen.StListStar(), gen.StMultiList(call)),   // evaluated against each element (elements carry n, s, an, o)
-		gen.Func("map", gen.ExpRef(call), gen.Field("ao")),                    // inside an expression reference
+		gen.Chain(gen.Field("ao"), gen.StListStar(), gen.StMultiList(call)), // evaluated against each element (elements carry n, s, an, o)
+		gen.Func("map", gen.ExpRef(call), gen.Field("ao")),                  // inside an expression reference
 		gen.Chain(gen.Field("ao"), gen.StFilter(gen.Func("not_null", call, gen.LitJSON("true")))),
-		gen.Pipe(call, bad),                                                   // error after the work was done
-		gen.MultiList(call, bad),                                              // erroring sibling
+		gen.Pipe(call, bad),      // error after the work was done
+		gen.MultiList(call, bad), // erroring sibling
 		gen.Or(gen.LitJSON("null"), call),
 		gen.Func("to_array", call),
 		gen.Func("not_null", gen.Field("z"), call),
